@@ -76,6 +76,16 @@ def run_check(prop, tier, seed, replay=None):
     violations = 0
     known_lines = []
 
+    # a matcher's verdict counts only while the finding is listed in known_findings.json (never written at run time)
+    listed = set(f.get('line') for f in lib.load_known().get('findings', []) if f.get('property') == prop.id)
+    if not getattr(prop, '_known_wrapped', False):
+        _k = prop.known
+        prop.known = lambda *a, _k=_k: (lambda r: r if r in listed else None)(_k(*a))
+        if hasattr(prop, 'known_case'):
+            _kc = prop.known_case
+            prop.known_case = lambda *a, _kc=_kc: (lambda r: r if r in listed else None)(_kc(*a))
+        prop._known_wrapped = True
+
     def say(s):
         print(s, flush=True)
 
